@@ -95,6 +95,7 @@ def build(name, groups, harness_srcs, flags=(), sanitize=True, opt="-O1", cxx="g
     allflags = ["-std=gnu++17", opt, "-g", "-D" + GUARD, "-DOPT_ON", "-pthread", "-w"] + list(flags)
     if sanitize:
         allflags += SAN
+    allflags += os.environ.get("WV_EXTRA_FLAGS", "").split()      # lib/coverage.py: --coverage -DWV_COVERAGE
     key = _digest(repo_files() + hs + sorted(hdrs), (name, allflags, cxx, extra_link, force_include))
     d = os.path.join(CACHE, key)
     exe = os.path.join(d, name)
@@ -184,7 +185,7 @@ def tlc(module, cfg=None, env=None, workers=1, timeout=900, xmx=None, extra=(), 
     if dfs:
         jopts.append("-Dtlc2.tool.queue.IStateQueue=StateDeque")
     cmd = ["timeout", str(timeout), "java"] + jopts + ["-cp", TLC_JAR, "tlc2.TLC", "-metadir", meta,
-           "-workers", str(workers), "-config", (cfg or module) + ".cfg"] + list(extra) + [module + ".tla"]
+           "-noGenerateSpecTE", "-workers", str(workers), "-config", (cfg or module) + ".cfg"] + list(extra) + [module + ".tla"]
     t0 = time.time()
     r = subprocess.run(cmd, cwd=cwd, env=e, stdout=subprocess.PIPE, stderr=subprocess.STDOUT, text=True, errors="replace")
     shutil.rmtree(meta, ignore_errors=True)
